@@ -97,7 +97,7 @@ def cmd_verify(sid, tier, props):
     checks = meta.get('checks', {})
     for prop in props or [meta['property']]:
         t0 = time.time()
-        rc, out = run(['/verif/bin/gosmt', 'check', prop, '--tier', tier, '--repo', d, '--no-evidence'], cwd='/verif')
+        rc, out = run(['/verif/bin/gosmt', 'check', prop, '--tier', tier, '--repo', d, '--no-evidence', '--workers', os.environ.get('SEED_WORKERS', '16'), '--budget', os.environ.get('SEED_BUDGET', '1500')], cwd='/verif')
         verdict = {0: 'silent', 1: 'caught', 2: 'inconclusive'}.get(rc, f'rc{rc}')
         lines = [l for l in out.split('\n') if l.startswith('  harness=') or l.startswith('INCONCLUSIVE')]
         checks[f'{prop}/{tier}'] = {'verdict': verdict, 'wall_s': round(time.time() - t0, 1), 'detail': lines[:4]}
